@@ -65,7 +65,7 @@ func equalSet(a, b Set) bool {
 // MustFlow: facts that hold on ALL paths from entry to a point.
 type MustFlow struct {
 	Fn       *ssa.Function
-	Transfer func(in ssa.Instruction, s Set)     // mutate s for instruction in
+	Transfer func(in ssa.Instruction, s Set)       // mutate s for instruction in
 	Edge     func(from, to *ssa.BasicBlock, s Set) // optional: mutate for the edge from->to
 	Entry    Set
 
